@@ -3,12 +3,16 @@ package openapi3
 import "context"
 
 func validateExampleValue(ctx context.Context, input any, schema *Schema) error {
-	opts := make([]SchemaValidationOption, 0, 2)
+	opts := make([]SchemaValidationOption, 0, 3)
 
 	if vo := getValidationOptions(ctx); vo.examplesValidationAsReq {
 		opts = append(opts, VisitAsRequest())
 	} else if vo.examplesValidationAsRes {
 		opts = append(opts, VisitAsResponse())
+	}
+	if vo := getValidationOptions(ctx); vo.schemaPatternValidationDisabled {
+		// the document's patterns are not to be compiled: not for its examples either
+		opts = append(opts, DisablePatternValidation())
 	}
 	opts = append(opts, MultiErrors())
 
